@@ -1,9 +1,11 @@
 package main
 
 import (
+	"fmt"
 	"go/ast"
 	"go/token"
 	"go/types"
+	"os"
 	"strings"
 )
 
@@ -139,4 +141,41 @@ func (fc *FnCtx) havocBoxedArgs(st *State, args []Val) {
 		}
 	}
 	fc.assumptions["pointers to locals passed to callees are not retained beyond the call"] = true
+}
+
+// resultAtZero: does the contract say (unconditionally) that result `name` extends / reuses a slice that sits at offset 0?
+func (fc *FnCtx) resultAtZero(st, pre *State, ct *FuncContract, name string, bind map[string]Val) (yes bool) {
+	defer func() {
+		if r := recover(); r != nil {
+			if debugCalls {
+				fmt.Fprintf(os.Stderr, "resultAtZero %s.%s: %v\n", ct.Name, name, r)
+			}
+			yes = false
+		}
+	}()
+	var conj func(e SExpr) bool
+	conj = func(e SExpr) bool {
+		switch x := e.(type) {
+		case SBin:
+			if x.Op == "&&" {
+				return conj(x.L) || conj(x.R)
+			}
+		case SCall:
+			if (x.Fn == "extends" || x.Fn == "reuses") && len(x.Args) == 2 {
+				if id, ok := x.Args[0].(SId); ok && id.Name == name {
+					env := &specEnv{fc: fc, st: pre, old: pre, bind: bind, callee: ct, keepSlice: true}
+					if sv, ok := env.eval(x.Args[1]).(VSlice); ok && sv.Off.S == "0" {
+						return true
+					}
+				}
+			}
+		}
+		return false
+	}
+	for _, cl := range ct.Ensures {
+		if conj(cl.Expr) {
+			return true
+		}
+	}
+	return false
 }
